@@ -36,6 +36,7 @@ def one_run(ctx, corr):
         mods.append(m)
         extra["rqvp%d" % (k + 1)] = {"enabled": True, "lib": "probe_mods", "priority": prio, "tag": k + 1, "start": m["start"], "teardown": td, "value": 100 + k}
     origin = rnd.choice(["none", "user", "user", "api_user", "api_user", "api_internal", "listener", "data"])
+    arity_fault = rnd.choice([0, 0, 1, 2, 3])            # api_user faults: 0 = invalid argument / forbidden phase, 1-3 = a call with the wrong number of arguments
     fault_cb = rnd.choice(CALLBACKS)
     fault_occ = rnd.randrange(0, 3)         # on which occurrence of that callback
     if fault_cb == "init":
@@ -83,6 +84,9 @@ def one_run(ctx, corr):
             if origin == "api_user":
                 if name in ("init", "before_trading", "after_trading", "scheduled_before_trading"):
                     api.order_shares(stock, 100)            # refused in this phase: user error raised by the API
+                elif arity_fault:
+                    # a call with the wrong number of arguments: the strategy's mistake, whichever wrapper of the exported function notices it
+                    {0: lambda: api.deposit("STOCK"), 1: lambda: api.get_open_orders(1, 2), 2: lambda: api.order_target_portfolio()}[arity_fault - 1]()
                 else:
                     api.order_shares("NOPE.XSHE", 100)      # invalid argument: user error raised by the API
             else:
